@@ -39,9 +39,14 @@ impl Ctx {
     }
 }
 
+thread_local! { static GUARD_DEPTH: std::cell::Cell<u32> = const { std::cell::Cell::new(0) }; }
+
 /// Runs `f`, mapping a panic to the string `PANIC`.
 pub fn guard<F: FnOnce() -> String + std::panic::UnwindSafe>(f: F) -> String {
-    match std::panic::catch_unwind(f) {
+    GUARD_DEPTH.with(|d| d.set(d.get() + 1));
+    let r = std::panic::catch_unwind(f);
+    GUARD_DEPTH.with(|d| d.set(d.get() - 1));
+    match r {
         Ok(s) => s,
         Err(_) => "PANIC".to_string(),
     }
@@ -55,7 +60,9 @@ fn main() {
     }
     // Panics are expected observations in some suites; keep stderr quiet but recorded.
     std::panic::set_hook(Box::new(|info| {
-        if std::env::var("SVH_PANIC_TRACE").is_ok() {
+        // panics inside `guard` are observations; anything else (a bug in a generator) must be visible
+        let in_guard = GUARD_DEPTH.with(|d| d.get() > 0);
+        if !in_guard || std::env::var("SVH_PANIC_TRACE").is_ok() {
             eprintln!("panic: {info}");
         }
     }));
